@@ -11,7 +11,8 @@ EXPLANATION = (
     "both Serialize and Deserialize; (R4) both binary encoders return exactly bincode::serialize(self); (R5) every derived Serialize in ppoprf writes each declared field exactly once on every path and no derived "
     "Deserialize substitutes a default for a missing element (bincode is positional and not self-describing); (R3) decode errors (serde, base64, length) flow into the returned Err - the "
     "Ok value is exactly the decoder's payload.  NOT decided: equality of restored and original values (round "
-    "trip is a runtime relation), behaviour of bincode/serde themselves.")
+    "trip is a runtime relation), behaviour of bincode/serde themselves."
+    "  Also (R5) the only hand-written field codecs reached from derived serde code are the reviewed point_serialize / point_deserialize of Evaluation.output; (R6 = C11.R4, feature key-sync) the key-state structs have equal field tables, export borrows the live fields and import replaces all three components with the decoded ones.")
 ASSUMPTIONS = ["bincode 1.3 / serde derive produce symmetric encodings for derived Serialize/Deserialize"]
 TRUSTED = []
 
@@ -147,6 +148,12 @@ def run(ctx):
     derived_codecs_positional(ctx, "C15.R5")
     custom_field_codecs(ctx, "C15.R5")
     ctx.floor("C15.R5", 6)
+    # ---- R6 the key-state codec (feature key-sync): owned / borrowed structs have the same field table, export borrows the
+    #         live fields, import replaces every component with the decoded one (C11.R4 re-run) - a restored key state
+    #         that keeps a stale public key is not the one that was serialised
+    from . import c11
+    c11.export_import(ctx, "C15.R6")
+    ctx.floor("C15.R6", 6)
 
 
 def derived_codecs_positional(ctx, rule, cfg="A"):
